@@ -12,6 +12,7 @@ The same function runs
   replaying counterexamples on the unpatched code in a fresh process.
 """
 import math
+import os
 import time
 import traceback
 from fractions import Fraction
@@ -113,6 +114,7 @@ class Settings(object):
     max_shadow = 40
     conc_rtol = 1e-6
     sample_limit = 3
+    poly_normal_form = True  # equalities: first try the polynomial normal form modulo the primitives' axioms
 
 
 class Ctx(object):
@@ -146,6 +148,7 @@ class Ctx(object):
         self._declare(name, kind='real')
         if self.sym:
             v = SV(T.var(name))
+            ENG.sampler.hint(name, lo if lo is not None else (0 if pos else None), hi)
         else:
             v = float(self.values.get(name, default))
         if pos:
@@ -177,12 +180,19 @@ class Ctx(object):
         v = self.values.get(name, [0.5, -0.25])
         return complex(v[0], v[1])
 
-    def angle(self, name, default=0.7):
-        """A real number that the code under test only uses through cos/sin."""
-        self._declare(name, kind='angle')
+    def angle(self, name, default=0.7, lo=None, hi=None):
+        """A real number that the code under test only uses through cos/sin (and bounds checks)."""
+        self._declare(name, kind='angle', lo=lo, hi=hi)
         if self.sym:
-            return SV(T.var(name))
-        return float(self.values.get(name, default))
+            v = SV(T.var(name))
+            ENG.sampler.hint(name, lo, hi)
+        else:
+            v = float(self.values.get(name, default if lo is None else (lo + (hi if hi is not None else lo + 1)) / 2))
+        if lo is not None:
+            self.assume(v >= lo)
+        if hi is not None:
+            self.assume(v <= hi)
+        return v
 
     def array(self, name, shape, dtype='float64', order='C', garbage=False):
         dt = np.dtype(dtype)
@@ -442,6 +452,8 @@ class Ctx(object):
             r = res['r']
             if res.get('tolerance'):
                 st['tolerance'] += 1
+            if res.get('normal_form'):
+                st['normal_form'] = st.get('normal_form', 0) + 1
             if r == 'unsat':
                 st['discharged'] += 1
             elif r == 'sat':
@@ -451,10 +463,34 @@ class Ctx(object):
                 self.inconclusive.append('%s: solver returned %s' % (label, r))
         finally:
             st['solver_s'] += time.time() - t0
+            if os.environ.get('VERIF_SLOW') and time.time() - t0 > float(os.environ['VERIF_SLOW']):
+                print('SLOW-OBLIGATION %.1fs %s goals=%d' % (time.time() - t0, label, len(goals)))
 
     def _decide(self, goal, goals, lt, rt, use_tol):
         """Pose one obligation; returns a plain dict (so that it can cross a process boundary)."""
         out = {'r': 'unknown'}
+        if getattr(self, '_ineq_box', None) is None and len(lt) == len(rt) and self.S.poly_normal_form:
+            # polynomial normal form modulo the axioms of sqrt / sin / cos (see symnp.poly): the identity holds
+            # under the axioms when the difference reduces to the zero polynomial
+            from .poly import identical_modulo_axioms
+            if identical_modulo_axioms(list(zip(lt, rt))):
+                out['r'] = 'unsat'
+                out['normal_form'] = True
+                return out
+        allt = [goal] + list(ENG.pc) + list(ENG.axioms)
+        atoms = _norm_atoms(allt)
+        if atoms:
+            # norm identities: the vector components under a sqrt(sum of squares) are abstracted to fresh
+            # variables everywhere (a generalisation: unsat carries over), as are all applications
+            memo = {i: z3.Real('atom!%d' % i) for i in atoms}
+            s0 = z3.Solver()
+            s0.set('timeout', min(10000, self.S.obligation_timeout_ms))
+            for c in allt:
+                s0.add(T.to_z3(c, memo, abstract_apps=True))
+            if str(s0.check()) == 'unsat':
+                out['r'] = 'unsat'
+                out['abstracted_norm_atoms'] = True
+                return out
         if len(lt) == len(rt) and T.has_div(list(lt) + list(rt)) and all(t.sort != T.B for t in lt):
             # rational identities: first try with cleared denominators (every denominator is non-zero on
             # this path by the definedness rule), which is a polynomial identity
@@ -490,6 +526,24 @@ class Ctx(object):
             # exact identity refuted: inexact concrete constants?  tolerance form
             s = ENG.fresh_solver(self.S.obligation_timeout_ms)
             r, model = self._tolerance_query(s, lt, rt, use_tol)
+            if r == 'unknown':
+                # entry by entry (never fall back to the exact form: it is already known to be refutable)
+                pairs = [(u, v) for u, v in zip(lt, rt) if u is not v]
+                worst = 'unsat'
+                for u, v in pairs if len(pairs) > 1 else []:
+                    s = ENG.fresh_solver(self.S.obligation_timeout_ms)
+                    r1, m1 = self._tolerance_query(s, [u], [v], use_tol)
+                    if r1 == 'sat':
+                        worst, model = 'sat', m1
+                        break
+                    if r1 != 'unsat':
+                        worst = 'unknown'
+                r = worst if len(pairs) > 1 else 'unknown'
+                if r != 'sat':
+                    out['r'] = r
+                    if r == 'unsat':
+                        out['tolerance'] = True
+                    return out
             if r == 'unsat':
                 out['tolerance'] = True
         if r == 'sat' and getattr(self, '_ineq_box', None):
@@ -628,7 +682,16 @@ class Ctx(object):
                 c = model.eval(T.z3fun('cos', 1)(a), model_completion=True)
                 s_ = model.eval(T.z3fun('sin', 1)(a), model_completion=True)
                 try:
-                    vals[n] = math.atan2(float(_num(s_)), float(_num(c)))
+                    ang = math.atan2(float(_num(s_)), float(_num(c)))
+                    lo_, hi_ = info.get('lo'), info.get('hi')
+                    if lo_ is not None or hi_ is not None:
+                        # the representative of the angle inside its declared range
+                        for k_ in range(-8, 9):
+                            cand = ang + 2 * math.pi * k_
+                            if (lo_ is None or cand >= lo_) and (hi_ is None or cand <= hi_):
+                                ang = cand
+                                break
+                    vals[n] = ang
                 except ValueError:
                     vals[n] = get(n, T.R)
             elif k in ('real', 'int'):
@@ -651,6 +714,18 @@ class Ctx(object):
             except Exception:
                 continue
         return vals, funcs
+
+    def _values_from_sample(self, k):
+        """input values at pool point ``k`` of the branch sampler (a robust witness of the path condition)"""
+        vals = {}
+        sm = ENG.sampler
+        for n, info in self.inputs.items():
+            names = self._var_names(n, info)
+            if info['kind'] in ('real', 'int', 'angle'):
+                vals[n] = sm.value_of(k, *names[0])
+            else:
+                vals[n] = [sm.value_of(k, vn, s_) for vn, s_ in names]
+        return vals
 
     def _explain(self, model, lt, rt):
         out = []
@@ -691,6 +766,37 @@ class Ctx(object):
 
 
 # ---------------------------------------------------------------- helpers
+def _norm_atoms(roots):
+    """ids of the non-atomic terms x_i of every sqrt(c_1 x_1^2 + ... + c_n x_n^2) application"""
+    out = {}
+    for a in T.apps(roots):
+        if a.val != 'sqrt':
+            continue
+        stack = [a.args[0]]
+        found = []
+        ok = True
+        while stack:
+            x = stack.pop()
+            if x.op == 'add':
+                stack.extend(x.args)
+            elif x.op == 'mul' and x.args[0] is x.args[1]:
+                found.append(x.args[0])
+            elif x.op == 'mul' and x.args[0].op == 'const':
+                stack.append(x.args[1])
+            elif x.op == 'mul' and x.args[1].op == 'const':
+                stack.append(x.args[0])
+            elif x.op == 'const':
+                pass
+            else:
+                ok = False
+                break
+        if ok:
+            for x in found:
+                if x.op not in ('var', 'const') and T.size([x]) > 3:
+                    out[x.id] = x
+    return out
+
+
 def _pair_up(a, b):
     lt, rt = [], []
     for u, v in zip(a, b):
